@@ -1,6 +1,6 @@
 SPECIFICATION MCSpec
-CONSTANT Params <- FbParams
-CONSTANT MkCase <- FbCase
+CONSTANT Params <- ElfParamsSet
+CONSTANT MkCase <- ElfCase
 CONSTANT MaxTags = 3
 CONSTANT DstExtra = 9
 CONSTANT MaxD = 64
